@@ -1,5 +1,125 @@
-import Asn1Verif.Base.Text
-/- line protocol, stream `uper` — not implemented yet -/
+import Asn1Verif.Uper.Sexpr
+import Asn1Verif.Uper.Impl
+/- line protocol, stream `uper` (L2) -/
 namespace Driver.UperStream
-def handle (_args : List String) : String := "bad-op"
+open Asn1Verif Asn1Verif.Uper Asn1Verif.Per Asn1Verif.Text
+
+def rest (args : List String) : Option (List Sx) := sxParse (sxTokens (String.intercalate " " args))
+
+def errStr (k : ErrKind) : String := toString k
+
+/-- an ill-typed request is `bad-op` on both sides -/
+def renderOr {α : Type} (f : α → String) : Outcome α → String
+  | .ok a => "ok " ++ f a
+  | .err .illTyped => "bad-op"
+  | .err k => "err " ++ toString k
+  | .panic => "panic"
+
+def decodeStr (t : Ty) (bits : Bits) : Except String (String × Nat) :=
+  match dec t bits 0 with
+  | .ok (v, p) => .ok (valToSx v, p)
+  | .err k => .error (toString k)
+  | .panic => .error "PANIC"
+
+/-- several values through one writer, then read back in order from one reader -/
+def many (items : List (Ty × Val)) : String :=
+  let rec wr (items : List (Ty × Val)) (acc : Bits) : Outcome Bits :=
+    match items with
+    | [] => .ok acc
+    | (t, v) :: r =>
+      match enc t v with
+      | .ok b => wr r (acc ++ b)
+      | .err k => .err k
+      | .panic => .panic
+  match wr items [] with
+  | .err .illTyped => "bad-op"
+  | .err k => "err " ++ toString k
+  | .panic => "panic"
+  | .ok bits =>
+    let rec rd (items : List (Ty × Val)) (pos : Nat) (acc : List String) : List String × Nat :=
+      match items with
+      | [] => (acc.reverse, pos)
+      | (t, _) :: r =>
+        match dec t bits pos with
+        | .ok (v, p) => rd r p (valToSx v :: acc)
+        | .err k => ((("readerr:" ++ toString k) :: acc).reverse, pos)
+        | .panic => (("readpanic" :: acc).reverse, pos)
+    let (outs, pos) := rd items 0 []
+    String.intercalate " " (["ok", bitsToString bits] ++ outs ++ [toString (bits.length - pos)])
+
+def handle (args : List String) : String :=
+  match args with
+  | ["list"] => "skip"
+  | "desc" :: _ => "skip"
+  | "gen" :: _ => "skip"
+  | "enc" :: _ :: r =>
+    match rest r with
+    | some [t, v] =>
+      match tyOfSx t, valOfSx v with
+      | some t, some v => if t.consistent then renderOr bitsToString (enc t v) else "inconsistent-descriptor"
+      | _, _ => "bad-op"
+    | _ => "bad-op"
+  | "dec" :: _ :: r =>
+    match rest r with
+    | some [t, Sx.atom b] =>
+      match tyOfSx t, parseBits b with
+      | some t, some bits =>
+        if t.consistent then
+          renderOr (fun (p : Val × Nat) => valToSx p.1 ++ " " ++ toString p.2) (dec t bits 0)
+        else "inconsistent-descriptor"
+      | _, _ => "bad-op"
+    | _ => "bad-op"
+  | "rt" :: _ :: r =>
+    match rest r with
+    | some [t, v] =>
+      match tyOfSx t, valOfSx v with
+      | some t, some v =>
+        if !t.consistent then "inconsistent-descriptor" else
+        match enc t v with
+        | .ok bits =>
+          match dec t bits 0 with
+          | .ok (v', p) => "ok " ++ bitsToString bits ++ " " ++ valToSx v' ++ " " ++ toString (bits.length - p)
+          | .err k => "ok " ++ bitsToString bits ++ " readerr:" ++ toString k ++ " -"
+          | .panic => "ok " ++ bitsToString bits ++ " readpanic -"
+        | .err .illTyped => "bad-op"
+        | .err k => "err " ++ toString k
+        | .panic => "panic"
+      | _, _ => "bad-op"
+    | _ => "bad-op"
+  | "many" :: r =>
+    match rest r with
+    | some items =>
+      let rec triples (l : List Sx) : Option (List (Ty × Val)) :=
+        match l with
+        | [] => some []
+        | _ :: t :: v :: r => do
+          let t ← tyOfSx t
+          let v ← valOfSx v
+          let r ← triples r
+          pure ((t, v) :: r)
+        | _ => none
+      match triples items with
+      | some l => if l.isEmpty then "bad-op" else if l.all (·.1.consistent) then many l else "inconsistent-descriptor"
+      | none => "bad-op"
+    | none => "bad-op"
+  | "cross" :: r =>
+    match rest r with
+    | some [_, tw, v, _, tr, Sx.atom s] =>
+      match tyOfSx tw, valOfSx v, tyOfSx tr, parseBits s with
+      | some tw, some v, some tr, some sentinel =>
+        if !(tw.consistent && tr.consistent) then "inconsistent-descriptor" else
+        match enc tw v with
+        | .ok bits =>
+          let r := match dec tr (bits ++ sentinel) 0 with
+            | .ok (v', p) => valToSx v' ++ " " ++ toString p
+            | .err k => "readerr:" ++ toString k ++ " -"
+            | .panic => "readpanic -"
+          "ok " ++ bitsToString bits ++ " " ++ r
+        | .err .illTyped => "bad-op"
+        | .err k => "err " ++ toString k
+        | .panic => "panic"
+      | _, _, _, _ => "bad-op"
+    | _ => "bad-op"
+  | _ => "bad-op"
+
 end Driver.UperStream
